@@ -22,6 +22,9 @@ func GenPlan(family string, seed uint64) *Plan {
 	p := g(r)
 	p.Seed = seed
 	p.Family = family
+	if family == "c09stop" {
+		enumerateStopPoint(p, seed)
+	}
 	if p.Bucket == "" {
 		p.Bucket = "leaders"
 	}
@@ -774,4 +777,62 @@ func init() {
 		p.Until += 2 * p.TTL
 		return p
 	}
+}
+
+func init() {
+	// C09 stop-point enumeration: the stop call is placed by (operation number, phase) of the
+	// stopping instance's own store operations: immediately before (invoke), between issue and
+	// application (invoke + tiny delay), between application and response (apply), immediately
+	// after (return) - for each of its first 16 operations and for each stop variant. The seed
+	// enumerates (op#, phase, variant); the rest of the schedule is random.
+	families["c09stop"] = func(r *Rng) *Plan {
+		p := &Plan{Judge: []string{"C09", "C18", "C08"}}
+		baseTiming(r, p, hLattice[:5])
+		n := 1 + r.Intn(3)
+		p.Insts = mkInsts(r, n, 1)
+		for i := range p.Insts {
+			c := &p.Insts[i]
+			c.V = Pick(r, []time.Duration{0, p.H, 2 * p.H})
+			c.DemoteDur = Pick(r, []time.Duration{0, 0, 10 * ms, 6 * sec})
+			c.PromoteMode = Pick(r, []string{"block", "return"})
+			if r.Bool(0.3) {
+				c.Prio, c.Takeover = 1+r.Intn(3), true
+			}
+			p.Actions = append(p.Actions, Action{At: time.Duration(i) * r.Dur(0, 2*p.H), Kind: AStart, Inst: i})
+		}
+		p.Store = healthyStore(r, Pick(r, []time.Duration{p.H / 2, p.H, 2 * sec}))
+		return p
+	}
+}
+
+// enumerateStopPoint completes a c09stop plan from the seed: called by GenPlan.
+func enumerateStopPoint(p *Plan, seed uint64) {
+	phases := []string{"invoke", "invoke", "apply", "return"}
+	delays := []time.Duration{0, 1, 0, 0} // "invoke"+1ns = between issue and application
+	variants := []Action{
+		{Kind: AStop},
+		{Kind: AStopCtx},
+		{Kind: AStopCtx, DeleteKey: true},
+		{Kind: AStopCtx, DeleteKey: true, WaitForDemote: true},
+		{Kind: AStopCtx, WaitForDemote: true, Timeout: 1 * sec},
+		{Kind: AStopCtx, DeleteKey: true, Timeout: 10 * sec, CtxTimeout: 2 * sec},
+		{Kind: AStopCtx, CtxCancelAt: 300 * ms},
+	}
+	k := seed
+	opn := int(k%16) + 1
+	k /= 16
+	ph := int(k % 4)
+	k /= 4
+	v := variants[k%uint64(len(variants))]
+	v.Inst = 0
+	v.OpN, v.Phase, v.Delay = opn, phases[ph], delays[ph]
+	p.Actions = append(p.Actions, v)
+	r := NewRng(seed, "c09stop-extra")
+	if r.Bool(0.4) { // repeated stop, or stop then start
+		p.Actions = append(p.Actions, Action{OpN: opn, Phase: phases[ph], Delay: delays[ph] + r.Dur(0, 8*sec), Inst: 0, Kind: Pick(r, []string{AStop, AStopCtx, AStart})})
+	}
+	p.Note = fmt.Sprintf("stop point: op %d phase %s(+%d) variant %d", opn, phases[ph], delays[ph], k%uint64(len(variants)))
+	p.Until = 20*p.H + 3*p.TTL + 8*sec
+	p.Tail = 0
+	p.Sched = SchedCfg{YieldProb: Pick(r, []float64{0, 0.2}), StallMax: 0}
 }
